@@ -119,12 +119,22 @@ def clone(expr):
     return pickle_loads(pickle_dumps(expr))
 
 
+def make_ctl(seed):
+    """seed: an int (seeded random completion order), "fifo" (the job submitted first completes first) or "lifo"
+    (the job submitted LAST completes first: later terms of a container finish before earlier ones)"""
+    if seed == "fifo":
+        return RecCtl(schedule=[])
+    if seed == "lifo":
+        return RecCtl(schedule=[-1] * 100000)
+    return RecCtl(rng=random.Random(seed))
+
+
 def run_ctl(expr, seed, sched=None, ctl=None, **kw):
     """-> (canonical outcome, ctl, scheduler)"""
     if sched is None:
         expr = clone(expr)
     if ctl is None:
-        ctl = RecCtl(rng=random.Random(seed))
+        ctl = make_ctl(seed)
     if sched is None:
         sched = fresh_scheduler(ctl)
     status, payload = ctl.run(sched, expr, **kw)
